@@ -222,6 +222,8 @@ func gpermGen(rng *hx.Rng, n int, tier string, w *hx.Writer) {
 			runPermGroup(cs, k, nat, []string{"configslots"}, w)
 			runPermGroup(genFuncQualified(r7.Fork()), k, nat, []string{"funcq"}, w)
 			runPermGroup(genTwinIfaces(r7.Fork()), k, nat, []string{"twinifaces"}, w)
+			runPermGroup(genProgQualified(r7.Fork()), k, nat, []string{"progq"}, w)
+			runPermGroup(genOddProcessors(r7.Fork()), k, nat, []string{"oddpp"}, w)
 		}
 	}
 }
